@@ -279,6 +279,9 @@ def stage_symbols(ctx: Ctx, progs):
                     ctx.violation(f'symbols|local|{type(f.a).__name__}', 'the local classification disagrees with the symbol table',
                                   {'src': src, 'scope': repr(f), 'missing': sorted(wl - hl), 'extra': sorted(hl - wl)})
                 wf = {s.get_name() for s in syms if s.is_referenced() and not (s.is_assigned() or s.is_parameter() or s.is_imported()) and not s.get_name() in rule_gl and not s.get_name() in rule_nl} & rule_names
+                if isinstance(f.a, ast.Module):
+                    # CPython 3.12 records a walrus target hoisted out of a module-level comprehension as "declared global, not assigned" in the module's table: it IS bound there
+                    wf -= {n_.target.id for c_ in ast.walk(f.a) if isinstance(c_, (ast.ListComp, ast.SetComp, ast.DictComp, ast.GeneratorExp)) for n_ in ast.walk(c_) if isinstance(n_, ast.NamedExpr)}
                 hf = set(got['free'])
                 if is_comp:
                     wf -= w
